@@ -12,11 +12,13 @@ import (
 	"filippo.io/age/xverif/internal/coregen"
 	"filippo.io/age/xverif/internal/vk"
 	"filippo.io/age/xverif/internal/world"
+	"filippo.io/age/xverif/props/ageflow"
 )
 
 // Run is the C11 check.
 func Run(tier string) {
 	run := vk.NewRun("C11", tier, "model_checking")
+	rec := ageflow.Start(run.Pick(30000, 150000)) // every Encrypt/Decrypt below is also replayed through AgeFlow.tla
 	run.Rule("TLC (AgeCore.tla, mode labels) enumerates every list of 1..MaxRecips recipients over 12 label declarations (absent, empty, one to three labels in several orders), a failing recipient and a native recipient, checks LabelRule on the model (success iff all label SETS are equal; nothing written on refusal) and emits the expected verdict; each list is built from real custom recipients (nil label slice for absent, non-nil empty slice for empty) and passed to age.Encrypt with a counting destination. Passphrase recipients (fresh random label) are covered with every partner. Distinct = recipient list.")
 	run.Assume("a recipient returning the same label twice is not generated (set versus list reading differs)")
 	maxR := run.Pick(3, 4)
@@ -79,6 +81,8 @@ func Run(tier string) {
 	if run.Thorough() {
 		run.Exhaustive()
 	}
+	ageflow.Validate(run, "own-cases", rec.Stop())
+	ageflow.RepoSuite(run)
 	run.Finish()
 }
 
